@@ -113,6 +113,11 @@ func (p *TFramedTransport) Read(buf []byte) (l int, err error) {
 		l, err = p.Read(tmp)
 		copy(buf, tmp)
 		if err == nil {
+			if uint32(l) < frameSize {
+				// The underlying reader delivered only part of what is left of
+				// the frame: a plain short read, the rest is still to come.
+				return l, nil
+			}
 			err = thrift.NewTTransportExceptionFromError(
 				fmt.Errorf("frugal: not enough frame (size %d) to read %d bytes", frameSize, len(buf)))
 			return
